@@ -141,7 +141,9 @@ def stats_cases(draw, max_side, max_zones=5):
     nodata = draw(st.sampled_from([None, None, 0, 99, pal[0], zpres[0] if zpres else 1]))
     zone_ids = None
     if zpres and draw(st.booleans()):
-        zone_ids = draw(S.id_list(zpres, extra=[77] if zkind == "int" else [77.5]))
+        # absent ids incl. fractional neighbours of present ids (2.5 on an integer raster must match nothing) and large near-equal ids
+        extra = [77, zpres[0] + 0.5, zpres[-1] - 0.5, -0.5] if zkind == "int" else [77.5, zpres[0] + 1e-7, zpres[-1] * (1 + 1e-6) + 1e-6]
+        zone_ids = draw(S.id_list(zpres, extra=extra, dtype=zones["dtype"]))
     user = draw(st.integers(0, 4)) == 0
     if user:
         names = draw(st.lists(st.sampled_from(sorted(Z.USER_REDUCERS)), min_size=1, max_size=4, unique=True))
